@@ -301,10 +301,13 @@ func C17(run *mon.Run) {
 		}
 		bpk := skFromInt(big.NewInt(5)).PublicKey()
 		_, e1 := crypto.SPOCKProve(sk, []byte("d"), h)
-		_, e2 := crypto.SPOCKVerifyAgainstData(sk.PublicKey(), make([]byte, 48), []byte("d"), h)
-		_, e3 := crypto.SPOCKVerify(sk.PublicKey(), make([]byte, 48), bpk, make([]byte, 48))
-		_, e4 := crypto.SPOCKVerify(bpk, make([]byte, 48), sk.PublicKey(), make([]byte, 48))
+		v2, e2 := crypto.SPOCKVerifyAgainstData(sk.PublicKey(), make([]byte, 48), []byte("d"), h)
+		v3, e3 := crypto.SPOCKVerify(sk.PublicKey(), make([]byte, 48), bpk, make([]byte, 48))
+		v4, e4 := crypto.SPOCKVerify(bpk, make([]byte, 48), sk.PublicKey(), make([]byte, 48))
 		run.Eval(4)
+		if v2 || v3 || v4 {
+			run.Violate("C17:non-bls-key:true-with-error", fmt.Sprintf("a verdict of true is returned together with the refusal of an ECDSA key: %v %v %v", v2, v3, v4), nil)
+		}
 		for i, e := range []error{e1, e2, e3, e4} {
 			if !crypto.IsNotBLSKeyError(e) {
 				run.Violate(fmt.Sprintf("C17:non-bls-key:%d", i), fmt.Sprintf("ECDSA key not refused with notBLSKey: %v", e), nil)
@@ -383,10 +386,10 @@ func C17(run *mon.Run) {
 		// ... and whatever the OTHER key is: an identity BLS key (from every producer) in the other position
 		for _, ik := range identityKeys(r) {
 			for _, esk := range []crypto.PrivateKey{e1, e2} {
-				_, ea := crypto.SPOCKVerify(ik.pk, good, esk.PublicKey(), good)
-				_, eb := crypto.SPOCKVerify(esk.PublicKey(), good, ik.pk, good)
+				va, ea := crypto.SPOCKVerify(ik.pk, good, esk.PublicKey(), good)
+				vb, eb := crypto.SPOCKVerify(esk.PublicKey(), good, ik.pk, good)
 				run.Eval(2)
-				if !crypto.IsNotBLSKeyError(ea) || !crypto.IsNotBLSKeyError(eb) {
+				if va || vb || !crypto.IsNotBLSKeyError(ea) || !crypto.IsNotBLSKeyError(eb) {
 					run.Violate("C17:non-bls-key:verify:with-identity-key", fmt.Sprintf("SPOCKVerify with an ECDSA key and the identity key %s in the other position: errors %v / %v", ik.name, ea, eb), nil)
 				}
 			}
@@ -394,12 +397,12 @@ func C17(run *mon.Run) {
 		// SPOCKVerify: a non-BLS key in either position is refused whatever the proofs look like
 		for pn, proof := range proofs {
 			for _, esk := range []crypto.PrivateKey{e1, e2} {
-				_, ea := crypto.SPOCKVerify(esk.PublicKey(), proof, bsk.PublicKey(), good)
-				_, eb := crypto.SPOCKVerify(bsk.PublicKey(), good, esk.PublicKey(), proof)
-				_, ec := crypto.SPOCKVerify(esk.PublicKey(), proof, esk.PublicKey(), proof)
+				va, ea := crypto.SPOCKVerify(esk.PublicKey(), proof, bsk.PublicKey(), good)
+				vb, eb := crypto.SPOCKVerify(bsk.PublicKey(), good, esk.PublicKey(), proof)
+				vc, ec := crypto.SPOCKVerify(esk.PublicKey(), proof, esk.PublicKey(), proof)
 				run.Eval(3)
-				if !crypto.IsNotBLSKeyError(ea) || !crypto.IsNotBLSKeyError(eb) || !crypto.IsNotBLSKeyError(ec) {
-					run.Violate("C17:non-bls-key:verify:"+pn, fmt.Sprintf("SPOCKVerify with an ECDSA key and proof %s: errors %v / %v / %v", pn, ea, eb, ec), nil)
+				if va || vb || vc || !crypto.IsNotBLSKeyError(ea) || !crypto.IsNotBLSKeyError(eb) || !crypto.IsNotBLSKeyError(ec) {
+					run.Violate("C17:non-bls-key:verify:"+pn, fmt.Sprintf("SPOCKVerify with an ECDSA key and proof %s: (%v,%v) / (%v,%v) / (%v,%v), expected false with the not-a-BLS-key error", pn, va, ea, vb, eb, vc, ec), nil)
 				}
 			}
 		}
